@@ -84,6 +84,40 @@ def _run_variant(args):
         shutil.rmtree(tmp, ignore_errors=True)
 
 
+def _run_snapshot(args):
+    """Historical regression: the pinned snapshot (before the fix: commits) must still be flagged at the repaired constructs."""
+    import subprocess
+    prop, repo_root, commit, expected = args
+    from .. import cli
+    from ..model import AnalysisError
+
+    name = f"pinned-snapshot-{commit}"
+    try:
+        r = subprocess.run(["git", "-C", repo_root, "cat-file", "-e", commit + "^{commit}"], capture_output=True)
+        if r.returncode != 0:
+            return (name, "skipped", "snapshot commit not available in this checkout")
+    except Exception as e:  # noqa: BLE001
+        return (name, "skipped", f"git not usable: {e}")
+    tmp = tempfile.mkdtemp(prefix="xgi_selftest_snap_")
+    try:
+        ar = subprocess.run(f"git -C {repo_root} archive {commit} xgi | tar -x -C {tmp}", shell=True, capture_output=True)
+        if ar.returncode != 0 or not os.path.isdir(os.path.join(tmp, "xgi")):
+            return (name, "skipped", "could not extract the snapshot")
+        try:
+            code, result, violations, known, lines = cli.run_check(prop, tmp, "quick", None, 0, quiet=True, write=False)
+        except AnalysisError as e:
+            return (name, "MISSED", f"analysis error on the snapshot: {e}")
+        missing = []
+        for rule, where in expected:
+            if not any(v.rule == rule and (where in v.function or where in v.statement or where in v.message) for v in violations):
+                missing.append((rule, where))
+        if missing:
+            return (name, "MISSED", f"not reported on the pinned snapshot: {missing}")
+        return (name, "caught", f"{len(expected)} historical defects re-detected")
+    finally:
+        shutil.rmtree(tmp, ignore_errors=True)
+
+
 def run_selftest(prop, repo_root, seed=0, jobs=16):
     from . import variants as V
 
@@ -92,8 +126,12 @@ def run_selftest(prop, repo_root, seed=0, jobs=16):
     if not vs:
         return 0, [f"[{prop}] self-test: no variants registered"]
     work = [(prop, repo_root, v) for v in vs]
-    with ProcessPoolExecutor(max_workers=min(jobs, len(work))) as ex:
+    with ProcessPoolExecutor(max_workers=min(jobs, len(work) + 1)) as ex:
+        hist = V.HISTORICAL.get(prop)
+        fut = ex.submit(_run_snapshot, (prop, repo_root, V.PINNED_SNAPSHOT, hist)) if hist else None
         results = list(ex.map(_run_variant, work))
+        if fut is not None:
+            results.append(fut.result())
     lines = []
     bad = 0
     counts = {}
